@@ -429,7 +429,7 @@ func runFilterOnce(c *runCtx, sim *zsim.Sim, p *filterPlan, name string, records
 }
 
 // expectFilter is the framing/order model of filter mode.
-func expectFilter(c *runCtx, p *filterPlan, opts *Options, records []string, consumed int, query string) (lines []string, code int) {
+func expectFilter(c *runCtx, p *filterPlan, opts *Options, records []string, consumed int, query string, accuratePos bool) (lines []string, code int) {
 	// what the reference splitter says was delivered
 	delim := byte('\n')
 	if p.Read0 {
@@ -483,7 +483,7 @@ func expectFilter(c *runCtx, p *filterPlan, opts *Options, records []string, con
 		c.count("probe.tail_trimmed", 1)
 	}
 	mc := p.Match
-	mc.forcePos = true
+	mc.forcePos = accuratePos
 	mc.nth = opts.Nth
 	if len(mc.nth) > 0 {
 		c.count("probe.nth_scope", 1)
@@ -558,11 +558,34 @@ func runFilter(c *runCtx) {
 	if fr.err != nil || fr.code == ExitError {
 		c.violate("filter.error", "Run returned code %d err %v for args %v", fr.code, fr.err, plan.args(query))
 	}
-	want, wantCode := expectFilter(c, plan, opts, lines, fr.consumed, query)
+	// C05 adds a clause of its own: the sort key must not depend on whether match positions were requested.
+	// There the expected order is computed from accurate offsets (positions always requested); for the other
+	// properties served by this scenario the reference is the sequential filter under the same options.
+	accurate := c.prop == "C05"
+	want, wantCode := expectFilter(c, plan, opts, lines, fr.consumed, query, accurate)
 	got, terminated := splitOut(fr.stdout, plan.Print0)
 	cfg := fmt.Sprintf("args=%v items=%d reads=%v", plan.args(query), len(lines), plan.Reads)
 	if !terminated {
 		c.violate("filter.framing", "last output record is not terminated (%s)", cfg)
+	}
+	if accurate && strings.Join(got, "\x00") != strings.Join(want, "\x00") {
+		if want2, _ := expectFilter(c, plan, opts, lines, fr.consumed, query, false); strings.Join(got, "\x00") == strings.Join(want2, "\x00") {
+			// the output is the sequential filter's, but its order is not the one accurate offsets give
+			shape := "other"
+			crit := plan.Match.criteria()
+			beginEnd := false
+			for _, k := range crit {
+				if k == byBegin || k == byEnd {
+					beginEnd = true
+				}
+			}
+			if beginEnd && len(query) > 0 && (query[0] == ' ' || query[0] == '\t') && !plan.Match.Extended {
+				shape = "begin/end tiebreak, query starts with white space"
+			}
+			d := firstDiffStr(got, want)
+			c.violate("filter.positions_clause", "[%s] the order differs from the one computed with match positions requested: output line %d is %q, with accurate offsets it would be %q (%s)", shape, d, clip([]byte(got[d])), clip([]byte(want[d])), cfg)
+			return
+		}
 	}
 	compareOut(c, "filter", got, want, cfg)
 	if fr.code != wantCode {
@@ -647,6 +670,15 @@ func compareOut(c *runCtx, what string, got, want []string, cfg string) {
 	if len(got) != len(want) {
 		c.violate(what+".content", "%d output lines, expected %d; first extra/missing: %q (%s)", len(got), len(want), firstExtra(got, want), cfg)
 	}
+}
+
+func firstDiffStr(a, b []string) int {
+	for i := 0; i < len(a) && i < len(b); i++ {
+		if a[i] != b[i] {
+			return i
+		}
+	}
+	return 0
 }
 
 func minInt(a, b int) int {
